@@ -179,7 +179,7 @@ def scenario(sid, prop, conns, apps, horizon_ms=1000, single=None, reclaim=None,
         jc.append(j)
     sc = {"id": sid, "prop": prop, "conns": cc, "apps": apps, "horizon_ns": horizon_ms * MS,
           "judge": {"napps": len(apps), "single": (len(apps) == 1) if single is None else single,
-                    "conns": jc, "reclaim": reclaim or []}}
+                    "conns": jc, "reclaim": reclaim or [], "transport": extra.get("transport", "mem"), "resonly": bool(extra.get("resonly", False))}}
     sc.update(extra)
     return sc
 
